@@ -1,7 +1,10 @@
 CONSTANTS Depth = 3
           Record = FALSE
           Wide = FALSE
+          Full = FALSE
 INIT Init
 NEXT Next
 INVARIANT StateOK
 INVARIANT SelfNow
+INVARIANT SessionsCollide
+INVARIANT InLaw
